@@ -12,10 +12,11 @@ import (
 )
 
 type tEdge struct {
-	op   string
-	to   string
-	dev  bool
-	hist string
+	op     string
+	to     string
+	dev    bool
+	hist   string
+	tables string // hash of the target state without freshness labels
 }
 
 type tState struct {
@@ -100,9 +101,12 @@ func loadTraces(id string) map[string]*tGraph {
 				}
 				st := get(p[1])
 				get(p[2])
-				hist := ""
+				hist, tables := "", p[2]
 				if len(p) >= 6 {
 					hist = p[5]
+				}
+				if len(p) >= 7 {
+					tables = p[6]
 				}
 				dup := false
 				for _, e := range st.out {
@@ -113,13 +117,13 @@ func loadTraces(id string) map[string]*tGraph {
 							if len(g.nondet) < 5 {
 								g.nondet = append(g.nondet, fmt.Sprintf("state %s op %s -> %s and %s", p[1], p[4], e.to, p[2]))
 							}
-						} else if len(g.suspect) < 5 {
+						} else if e.tables != tables && len(g.suspect) < 5 {
 							g.suspect = append(g.suspect, fmt.Sprintf("state %s (histories %s, %s) op %s -> %s and %s", p[1], e.hist, hist, p[4], e.to, p[2]))
 						}
 					}
 				}
 				if !dup {
-					st.out = append(st.out, tEdge{op: p[4], to: p[2], dev: p[3] == "1", hist: hist})
+					st.out = append(st.out, tEdge{op: p[4], to: p[2], dev: p[3] == "1", hist: hist, tables: tables})
 				}
 			}
 		}
